@@ -32,7 +32,7 @@ FLAGS = ['enable_double_newline_paragraphs', 'enable_macros', 'enable_environmen
 GROUP_OF = {'latex_group_delimiters': 'G', 'latex_inline_math_delimiters': 'M',
             'latex_display_math_delimiters': 'M', 'in_math_mode': 'I', 'math_mode_delimiter': 'I',
             'macro_escape_char': 'C', 'comment_start': 'C', 'forbidden_characters': 'C',
-            'macro_alpha_chars': 'C'}
+            'macro_alpha_chars': 'C', 'latex_context': 'X'}
 for _f in FLAGS:
     GROUP_OF[_f] = 'F'
 
@@ -79,8 +79,27 @@ def to_kwargs(step):
     for k, v in step.items():
         if k.endswith('_delimiters'):
             v = [tuple(p) for p in v]
+        if k == 'latex_context':
+            v = named_context(v)
         kw[k] = v
     return kw
+
+
+_NAMED_CTX = {}
+
+
+def named_context(name):
+    """'ctx:<recipe>' -> one frozen database per recipe (steps stay JSON for the replay files)"""
+    if name is None:
+        return None
+    if name == 'ctx:default':
+        base_state()
+        return _CTX[0]
+    if name not in _NAMED_CTX:
+        db = contexts.build(name[4:])
+        db.freeze()
+        _NAMED_CTX[name] = db
+    return _NAMED_CTX[name]
 
 
 _CTX = []
@@ -94,7 +113,8 @@ def base_state(root_fields=None):
     kw = to_kwargs(root_fields) if root_fields else {}
     if kw.get('math_mode_delimiter') and not kw.get('in_math_mode'):
         kw.pop('math_mode_delimiter')
-    return ParsingState(s=None, latex_context=_CTX[0], **kw)
+    kw.setdefault('latex_context', _CTX[0])
+    return ParsingState(s=None, **kw)
 
 
 def alphabet_for(chain):
@@ -111,6 +131,8 @@ def alphabet_for(chain):
                 toks.append(v)
             elif k == 'math_mode_delimiter' and v:
                 toks += [v, {'\\(': '\\)', '\\[': '\\]'}.get(v, v)]
+            elif k == 'latex_context':
+                toks += ['+', '++', '&']       # specials of the every-type / default databases
     toks += ['a', ' ', '\\', '%', '{', '}', '$', '~', '\n\n', '\\begin{a}', '\\end{a}', '@']
     seen, out = set(), []
     for t in toks:
@@ -341,6 +363,12 @@ FAMILIES = {
               {'comment_start': '%%'}, {'comment_start': '%'}, {'forbidden_characters': 'a$'},
               {'forbidden_characters': ''}, {'macro_alpha_chars': 'a@'},
               {'macro_alpha_chars': 'abcdefghijklmnopqrstuvwxyzABCDEFGHIJKLMNOPQRSTUVWXYZ'}],
+    # the context database (the tokenizer asks it for specials) replaced, removed, restored,
+    # between steps that rebuild or inherit the cached tables
+    'context': [{'latex_context': 'ctx:every'}, {'latex_context': 'ctx:default'},
+                {'latex_context': None}, {'enable_specials': False}, {'enable_specials': True},
+                {'in_math_mode': True, 'math_mode_delimiter': '$'},
+                {'latex_inline_math_delimiters': [['$', '!']]}, {}],
 }
 
 
@@ -356,7 +384,7 @@ def plan(tier, seed):
                                  'delimiter-list-changed-while-in-math', 'no-op-step',
                                  'non-trivial', 'enumerated-chain', 'family:group',
                                  'family:inline', 'family:display', 'family:flags',
-                                 'family:chars']}
+                                 'family:chars', 'family:context', 'changed:X']}
 
 
 def strings_for(chain, L):
